@@ -87,16 +87,20 @@ class Recorder:
         rec = self
 
         def _smiles(self_, weights, **kw):
-            if not rec.trace_dfs:
+            line = dfs_done_line(rec.orig_smiles) if rec.trace_dfs else None
+            if line is None:   # no hook wanted, or the source no longer has the recognisable statement: run untraced
                 res = rec.orig_smiles(self_, weights, **kw)
             else:
-                code, line, got = rec.orig_smiles.__code__, dfs_done_line(rec.orig_smiles), []
+                code, got, bad = rec.orig_smiles.__code__, [], []
 
                 def local(frame, event, arg):
-                    if event == 'line' and frame.f_lineno == line:
-                        loc = frame.f_locals
-                        got.append((loc['start'], list(loc['visited']), [(k, list(v)) for k, v in loc['edges'].items()],
-                                    [(k, list(v)) for k, v in loc['tokens'].items()]))
+                    if event == 'line' and frame.f_lineno == line and not bad:
+                        try:
+                            loc = frame.f_locals
+                            got.append((loc['start'], list(loc['visited']), [(k, list(v)) for k, v in loc['edges'].items()],
+                                        [(k, list(v)) for k, v in loc['tokens'].items()]))
+                        except Exception:  # noqa  locals renamed: the hook is not usable (never disturb the traced call)
+                            bad.append(1)
                     return local
 
                 def tracer(frame, event, arg):
@@ -109,7 +113,7 @@ class Recorder:
                 finally:
                     sys.settrace(old)
                 if kw.get('_return_order'):
-                    rec.dfs = got
+                    rec.dfs = None if bad else got
             if kw.get('_return_order'):
                 rec.order = list(res[1])
             return res
@@ -139,11 +143,12 @@ def dfs_done_line(func):
     """line number of the first statement after the DFS loop of `_smiles` (the flattening starts there); found in the source"""
     if not _DFS_LINE:
         import inspect
-        src, first = inspect.getsourcelines(func)
-        hits = [first + i for i, l in enumerate(src) if l.strip() == 'stack = [[start, 0, [start]]]']
-        if len(hits) != 1:
-            raise RuntimeError('C02: cannot locate the end of the DFS loop in Smiles._smiles')
-        _DFS_LINE.append(hits[0])
+        try:
+            src, first = inspect.getsourcelines(func)
+            hits = [first + i for i, l in enumerate(src) if l.strip() == 'stack = [[start, 0, [start]]]']
+        except Exception:  # noqa
+            hits = []
+        _DFS_LINE.append(hits[0] if len(hits) == 1 else None)   # None: hook not available (reported in the distribution)
     return _DFS_LINE[0]
 
 
@@ -1204,6 +1209,8 @@ def correspond(ctx):
                     meta.append(('W', name, tag, spec, seed, m))
                     ctx.count(('W', spec, tuple(wire.mol_to_ints(m)), tuple(draws)), nontrivial)
                     ctx.dist('style:' + (spec or 'canonical'))
+                    if want_dfs and not trace and line.startswith('ok'):
+                        ctx.dist('dfs-internals:hook-not-available')
                     if trace and line.startswith('ok'):
                         # the DFS itself: start, discovery order, tree (edges), closure records (tokens) of every round, taken
                         # from the locals of the real frame, must equal the model's (the objects the theorems of §8 speak about)
